@@ -129,7 +129,7 @@ def run_histories(payload):
                 coll_ids[rec.key] = c
             probes = [_ts(Timespan, p) for p in hist["probes"]]
             steps = []
-            for op in hist["ops"]:
+            for si, op in enumerate(hist["ops"]):
                 obs = {}
                 try:
                     if op["op"] == "certify":
@@ -172,14 +172,15 @@ def run_histories(payload):
                             pth.append([qi, t, d, pi, _find(butler, TYPE_NAMES[t], d, names, probes[pi], ds_num)])
                 obs["path"] = pth
                 xp = []
-                for xi, path in enumerate(hist.get("xpaths", [])):
+                # paths with CHAINED / RUN collections: after every second op and after the last one
+                for xi, path in enumerate(hist.get("xpaths", []) if (si % 2 == 1 or si == len(hist["ops"]) - 1) else []):
                     names = [_coll_name(h, c) for c in path]
                     for (t, d) in sorted({(t, d) for (_, t, d) in hist["keys"]}):
                         for pi in hist.get("xpath_probes", []):
                             xp.append([xi, t, d, pi, _find(butler, TYPE_NAMES[t], d, names, probes[pi], ds_num)])
                 obs["xpath"] = xp
                 if hist.get("query_datasets") or payload.get("query_datasets"):
-                    obs["qd"], obs["qdp"] = _query_datasets(butler, h, hist, probes, ds_num)
+                    obs["qd"], obs["qdp"], obs["qall"] = _query_datasets(butler, h, hist, probes, ds_num)
                 steps.append(obs)
             results.append({"steps": steps, "wall": round(time.time() - t0, 2)})
         return {"results": results}
@@ -195,12 +196,12 @@ def _query_datasets(butler, h, hist, probes, ds_num):
     """New query system: find-first search of one calibration collection with a temporal constraint
     (`<type>.timespan OVERLAPS :ts`); ambiguity must be reported, not resolved arbitrarily."""
     from lsst.daf.butler import CalibrationLookupError
-    def one(names, t, d, p):
+    def one(names, t, d, p, find_first=True):
         try:
             with butler.query() as q:
                 q = q.join_dataset_search(TYPE_NAMES[t], names)
                 q = q.where(f"instrument = 'Cam' AND detector = {d} AND {TYPE_NAMES[t]}.timespan OVERLAPS ts", bind={"ts": p})
-                refs = list(q.datasets(TYPE_NAMES[t], names, find_first=True))
+                refs = list(q.datasets(TYPE_NAMES[t], names, find_first=find_first))
             return sorted(ds_num.get(r.id, -3) for r in refs)
         except CalibrationLookupError:
             return -2
@@ -218,4 +219,9 @@ def _query_datasets(butler, h, hist, probes, ds_num):
         for (t, d) in sorted({(t, d) for (_, t, d) in hist["keys"]}):
             for pi in hist.get("qd_probes", range(len(probes)))[:4]:
                 outp.append([qi, t, d, pi, one(names, t, d, probes[pi])])
-    return out, outp
+    # without find-first: one result per overlapping row of the collection (first key only)
+    outa = []
+    for (c, t, d) in hist["keys"][:1]:
+        for pi in hist.get("qd_probes", range(len(probes)))[:4]:
+            outa.append([c, t, d, pi, one([_coll_name(h, c)], t, d, probes[pi], find_first=False)])
+    return out, outp, outa
